@@ -15,6 +15,7 @@ import (
 	"regexp"
 	"strconv"
 	"strings"
+	"sync"
 	"time"
 )
 
@@ -96,16 +97,14 @@ func cmpInt(op string, lhs, rhs int64) bool {
 	panic("cmpInt: bad op " + op)
 }
 
-var reCache = map[string]*regexp.Regexp{}
+var reCache sync.Map
 
 func mustRe(p string) *regexp.Regexp {
-	reMu.Lock()
-	defer reMu.Unlock()
-	if re, ok := reCache[p]; ok {
-		return re
+	if re, ok := reCache.Load(p); ok {
+		return re.(*regexp.Regexp)
 	}
 	re := regexp.MustCompile(p)
-	reCache[p] = re
+	reCache.Store(p, re)
 	return re
 }
 
@@ -257,7 +256,7 @@ func subtreeLen(v *val, top bool) int {
 	case kObj:
 		n := 2
 		for i, c := range v.kids {
-			if needsEscape(v.keys[i]) {
+			if needsEscape(v.keys[i]) || (v.esc != 0 && string(appendJSONString(nil, v.keys[i], v.esc)) != `"`+v.keys[i]+`"`) {
 				return -1
 			}
 			l := subtreeLen(c, false)
@@ -275,6 +274,7 @@ func subtreeLen(v *val, top bool) int {
 }
 
 var reCanonInt = regexp.MustCompile(`^-?(0|[1-9][0-9]*)$`)
+var reNumberish = regexp.MustCompile(`^[ \t]*[+-]?[0-9][0-9_.,eE+-]*[ \t]*$`)
 var reJSONNumber = regexp.MustCompile(`^-?(0|[1-9][0-9]*)(\.[0-9]+)?([eE][+-]?[0-9]+)?$`)
 
 func evalLenCmp(r *rule, v *val) tri {
@@ -319,8 +319,8 @@ func evalLenCmp(r *rule, v *val) tri {
 				}
 				return b2t(cmpInt(r.cmp, x, int64(r.n)))
 			}
-			if k == kNum || reJSONNumber.MatchString(s) {
-				return triE // fractions, exponents, -0: not documented
+			if k == kNum || reJSONNumber.MatchString(s) || reNumberish.MatchString(s) {
+				return triE // fractions, exponents, -0, leading zeros or sign: not documented
 			}
 			return triF // text that is not a number has no integer value
 		default:
